@@ -207,6 +207,31 @@ class _IfExpDesugar(ast.NodeTransformer):
     def visit_Return(self, st):  # noqa: N802
         return self._split(st, lambda s: s.value, lambda v: ast.Return(value=v))
 
+    def visit_Expr(self, st):  # noqa: N802
+        # `f(.., A if c else B, ..)` as a statement, f an attribute chain and the other arguments free of effects:
+        # `if c: f(.., A, ..) else: f(.., B, ..)`
+        c = st.value
+        if not (isinstance(c, ast.Call) and _pure(c.func)):
+            return st
+        slots = [('a', i) for i, a in enumerate(c.args) if isinstance(a, ast.IfExp)] + \
+                [('k', i) for i, k in enumerate(c.keywords) if isinstance(k.value, ast.IfExp)]
+        others = [a for a in c.args if not isinstance(a, ast.IfExp)] + [k.value for k in c.keywords if not isinstance(k.value, ast.IfExp)]
+        if len(slots) != 1 or any(isinstance(a, ast.Starred) for a in c.args) or any(k.arg is None for k in c.keywords) or \
+                not all(_side_effect_free(o) for o in others):
+            return st
+        kind, i = slots[0]
+        ife = c.args[i] if kind == 'a' else c.keywords[i].value
+
+        def variant(v):
+            nc = clone(c)
+            if kind == 'a':
+                nc.args[i] = v
+            else:
+                nc.keywords[i].value = v
+            return ast.copy_location(ast.Expr(value=nc), st)
+        node = ast.If(test=ife.test, body=[self._again(variant(ife.body))], orelse=[self._again(variant(ife.orelse))])
+        return ast.copy_location(node, st)
+
     def visit_Lambda(self, node):  # noqa: N802
         return node
 
@@ -255,6 +280,150 @@ def _acquire_release_to_with(body):
     return changed
 
 
+def _exitstack_to_with(body):
+    """`with ExitStack() as s: s.enter_context(A); s.enter_context(B); BODY`  ->  `with A: with B: BODY` when s is used for
+    nothing else (same enter order, same exit order, same exception semantics)."""
+    changed = False
+    for i, st in enumerate(body):
+        if isinstance(st, ast.With) and len(st.items) == 1 and isinstance(st.items[0].optional_vars, ast.Name) and \
+                isinstance(st.items[0].context_expr, ast.Call) and not st.items[0].context_expr.args and \
+                ast.unparse(st.items[0].context_expr.func).split('.')[-1] == 'ExitStack':
+            name = st.items[0].optional_vars.id
+            entered = []
+            k = 0
+            while k < len(st.body):
+                b = st.body[k]
+                if isinstance(b, ast.Expr) and isinstance(b.value, ast.Call) and isinstance(b.value.func, ast.Attribute) and \
+                        b.value.func.attr == 'enter_context' and isinstance(b.value.func.value, ast.Name) and \
+                        b.value.func.value.id == name and len(b.value.args) == 1 and not b.value.keywords:
+                    entered.append(b.value.args[0])
+                    k += 1
+                else:
+                    break
+            rest = st.body[k:]
+            used = any(isinstance(n, ast.Name) and n.id == name for r in rest for n in ast.walk(r))
+            if entered and rest and not used:
+                inner = rest
+                for ctxe in reversed(entered):
+                    w = ast.With(items=[ast.withitem(context_expr=ctxe, optional_vars=None)], body=inner, type_comment=None)
+                    inner = [ast.copy_location(w, st)]
+                body[i] = inner[0]
+                st = body[i]
+                changed = True
+        for field in ('body', 'orelse', 'finalbody'):
+            sub = getattr(st, field, None)
+            if isinstance(sub, list) and sub and isinstance(sub[0], ast.stmt) and not isinstance(st, (*FUNC, ast.ClassDef)):
+                changed = _exitstack_to_with(sub) or changed
+        for h in getattr(st, 'handlers', []) or []:
+            changed = _exitstack_to_with(h.body) or changed
+    return changed
+
+
+def _first_evaluated_walrus(e):
+    """The NamedExpr that is evaluated before anything else in e can have an effect (left-most position), else None."""
+    while True:
+        if isinstance(e, ast.NamedExpr):
+            return e if isinstance(e.target, ast.Name) and not any(isinstance(x, ast.NamedExpr) for x in ast.walk(e.value)) \
+                else None
+        if isinstance(e, ast.Compare):
+            e = e.left
+        elif isinstance(e, ast.UnaryOp):
+            e = e.operand
+        elif isinstance(e, ast.BoolOp):
+            e = e.values[0]
+        elif isinstance(e, (ast.Attribute, ast.Subscript)):
+            e = e.value
+        else:
+            return None
+
+
+def _hoist_walrus(body):
+    """`if (x := E) is None:` -> `x = E` + `if x is None:` (an `elif` becomes `else:` + the two statements): the assignment
+    expression in the left-most position of an if-test is evaluated exactly when the if statement is reached."""
+    i = 0
+    while i < len(body):
+        st = body[i]
+        if isinstance(st, ast.If):
+            w = _first_evaluated_walrus(st.test)
+            if w is not None:
+                assign = ast.copy_location(ast.Assign(targets=[ast.Name(id=w.target.id, ctx=ast.Store())], value=w.value,
+                                                      type_comment=None), st)
+                name = ast.copy_location(ast.Name(id=w.target.id, ctx=ast.Load()), w)
+                if st.test is w:
+                    st.test = name
+                else:
+                    for parent in ast.walk(st.test):
+                        for fld, val in ast.iter_fields(parent):
+                            if val is w:
+                                setattr(parent, fld, name)
+                            elif isinstance(val, list) and any(v is w for v in val):
+                                setattr(parent, fld, [name if v is w else v for v in val])
+                body.insert(i, assign)
+                continue   # look at the same if again (a second walrus is rare but possible)
+        for field in ('body', 'orelse', 'finalbody'):
+            sub = getattr(st, field, None)
+            if isinstance(sub, list) and sub and isinstance(sub[0], ast.stmt) and not isinstance(st, (*FUNC, ast.ClassDef)):
+                _hoist_walrus(sub)
+        for h in getattr(st, 'handlers', []) or []:
+            _hoist_walrus(h.body)
+        i += 1
+
+
+def _ends_flow(stmts) -> bool:
+    if not stmts:
+        return False
+    last = stmts[-1]
+    if isinstance(last, (ast.Return, ast.Raise, ast.Continue, ast.Break)):
+        return True
+    if isinstance(last, ast.If):
+        return bool(last.orelse) and _ends_flow(last.body) and _ends_flow(last.orelse)
+    if isinstance(last, ast.With):
+        return _ends_flow(last.body)
+    return False
+
+
+def _push_return(stmts, ret, depth=0):
+    """Append `return <name>` to every open end of the statement list (into the branches of a trailing if / with / try)."""
+    if _ends_flow(stmts):
+        return
+    last = stmts[-1] if stmts else None
+    if depth < 6 and isinstance(last, ast.If):
+        _push_return(last.body, ret, depth + 1)
+        if last.orelse:
+            _push_return(last.orelse, ret, depth + 1)
+        else:
+            last.orelse = [clone(ret)]
+        return
+    if depth < 6 and isinstance(last, ast.With):
+        _push_return(last.body, ret, depth + 1)
+        return
+    if depth < 6 and isinstance(last, ast.Try) and not last.finalbody:
+        _push_return(last.orelse if last.orelse else last.body, ret, depth + 1)
+        for h in last.handlers:
+            _push_return(h.body, ret, depth + 1)
+        return
+    stmts.append(clone(ret))
+
+
+def _single_exit_to_returns(fn):
+    """A function that ends with `return <result variable>` after an if / with / try statement that only chooses the value of
+    that variable: the return is copied to the end of every branch (tail duplication; the value of a local cannot change
+    between the end of a branch and the return that follows the statement).  Rules then see the multi-exit form."""
+    body = fn.body
+    if len(body) < 2 or not isinstance(body[-1], ast.Return) or not isinstance(body[-1].value, ast.Name):
+        return False
+    prev = body[-2]
+    if not isinstance(prev, (ast.If, ast.With, ast.Try)) or (isinstance(prev, ast.Try) and prev.finalbody):
+        return False
+    name = body[-1].value.id
+    # only when the statement in front assigns the variable somewhere (otherwise there is nothing to gain)
+    if not any(isinstance(n, ast.Name) and n.id == name and isinstance(n.ctx, ast.Store) for n in ast.walk(prev)):
+        return False
+    ret = body.pop()
+    _push_return(body, ret)
+    return True
+
+
 def desugar_ifexp(modules: dict):
     for mod in modules.values():
         for node in ast.walk(mod.tree):
@@ -262,42 +431,131 @@ def desugar_ifexp(modules: dict):
                 _PlainAssign().generic_visit(node)
                 _IfExpDesugar().generic_visit(node)
                 _acquire_release_to_with(node.body)
+                _exitstack_to_with(node.body)
+                _hoist_walrus(node.body)
+                _single_exit_to_returns(node)
         ast.fix_missing_locations(mod.tree)
 
 
 # ----------------------------------------------------------------------------------------------------- 4. table-driven loops
-def _const_rows(e, module_consts):
-    """[(c1, c2..), ..] for a literal tuple/list of constants or of equally long tuples of constants (directly, or through a
-    module-level name bound once to such a literal); else None."""
-    if isinstance(e, ast.Name) and e.id in module_consts:
-        e = module_consts[e.id]
+def _is_const(y) -> bool:
+    return isinstance(y, ast.Constant) and (y.value is None or isinstance(y.value, (str, int, float, bool)))
+
+
+def _const_rows(e, module_consts, records=None):
+    """([(c1, c2..), ..], fields) for a literal tuple/list of constants, of equally long tuples of constants or of calls of one
+    NamedTuple class of this module with constant arguments (directly, or through a module-level / class-level name bound once to
+    such a literal); fields is the field list of that NamedTuple class, else None.  (None, None) when e is no such table."""
+    key = ast.unparse(e) if isinstance(e, (ast.Name, ast.Attribute)) else None
+    if key is not None and key in module_consts:
+        e = module_consts[key]
     if not isinstance(e, (ast.Tuple, ast.List)) or not e.elts or len(e.elts) > 16:
-        return None
+        return None, None
     rows = []
+    fields = None
     for x in e.elts:
         if isinstance(x, ast.Constant) and isinstance(x.value, (str, int, float)) and not isinstance(x.value, bool):
             rows.append((x,))
         elif isinstance(x, ast.Name):
             rows.append((x,))   # a local / parameter: allowed when the loop body does not assign it (checked by the caller)
-        elif isinstance(x, (ast.Tuple, ast.List)) and x.elts and all(
-                isinstance(y, ast.Constant) and isinstance(y.value, (str, int, float)) for y in x.elts):
+        elif isinstance(x, (ast.Tuple, ast.List)) and x.elts and all(_is_const(y) or isinstance(y, ast.Name) for y in x.elts):
             rows.append(tuple(x.elts))
+        elif isinstance(x, ast.Call) and isinstance(x.func, ast.Name) and records and x.func.id in records and \
+                all(_is_const(a) for a in x.args) and all(k.arg and _is_const(k.value) for k in x.keywords):
+            f = records[x.func.id]
+            if fields not in (None, f):
+                return None, None
+            fields = f
+            vals = dict(zip(f, x.args))
+            for k in x.keywords:
+                vals[k.arg] = k.value
+            if set(vals) != set(f):
+                return None, None
+            rows.append(tuple(vals[n] for n in f))
         else:
+            return None, None
+    if len({len(r) for r in rows}) != 1 or (fields is not None and len(rows) != len(e.elts)):
+        return None, None
+    return rows, fields
+
+
+def _continue_to_guard(body):
+    """[.., `if c: continue`, REST..] -> [.., `if not c: REST`]  for `continue` statements that are the whole body of a top-level
+    `if` of the loop body; None when a continue sits anywhere else."""
+    out = []
+    for i, b in enumerate(body):
+        if isinstance(b, ast.If) and len(b.body) == 1 and isinstance(b.body[0], ast.Continue) and not b.orelse:
+            rest = _continue_to_guard(body[i + 1:])
+            if rest is None:
+                return None
+            if rest:
+                neg = ast.UnaryOp(op=ast.Not(), operand=b.test)
+                out.append(ast.copy_location(ast.If(test=ast.copy_location(neg, b.test), body=rest, orelse=[]), b))
+            return out
+        if any(isinstance(n, ast.Continue) for n in ast.walk(b)):
             return None
-    if len({len(r) for r in rows}) != 1:
-        return None
-    return rows
+        out.append(b)
+    return out
+
+
+def _const_truth(e):
+    """True / False for a test over constants only (`'x' is not None`, `None is None`, a constant), else None."""
+    if isinstance(e, ast.Constant):
+        return bool(e.value)
+    if isinstance(e, ast.UnaryOp) and isinstance(e.op, ast.Not):
+        v = _const_truth(e.operand)
+        return None if v is None else not v
+    if isinstance(e, ast.Compare) and len(e.ops) == 1 and isinstance(e.left, ast.Constant) and \
+            isinstance(e.comparators[0], ast.Constant):
+        a, b = e.left.value, e.comparators[0].value
+        op = e.ops[0]
+        if isinstance(op, (ast.Is, ast.IsNot)) and (a is None or b is None):
+            r = (a is None) and (b is None)
+            return r if isinstance(op, ast.Is) else not r
+        if isinstance(op, (ast.Eq, ast.NotEq)):
+            return (a == b) if isinstance(op, ast.Eq) else (a != b)
+    return None
+
+
+def _fold_constant_tests(stmts):
+    """`if <test over constants>:` left behind by the substitution of a table row is replaced by the branch that runs."""
+    out = []
+    for st in stmts:
+        for field in ('body', 'orelse', 'finalbody'):
+            sub = getattr(st, field, None)
+            if isinstance(sub, list) and sub and isinstance(sub[0], ast.stmt) and not isinstance(st, (*FUNC, ast.ClassDef)):
+                setattr(st, field, _fold_constant_tests(sub) or ([ast.Pass()] if field == 'body' else []))
+        if isinstance(st, ast.If):
+            v = _const_truth(st.test)
+            if v is not None:
+                out.extend(st.body if v else st.orelse)
+                continue
+        out.append(st)
+    return out
+
+
+class _FieldSubst(ast.NodeTransformer):
+    """row.field -> the constant of that field (row is the loop variable over a table of NamedTuple rows)"""
+
+    def __init__(self, name, values):
+        self.name, self.values = name, values
+
+    def visit_Attribute(self, n):  # noqa: N802
+        if isinstance(n.value, ast.Name) and n.value.id == self.name and n.attr in self.values and isinstance(n.ctx, ast.Load):
+            return ast.copy_location(clone(self.values[n.attr]), n)
+        return self.generic_visit(n)
 
 
 class _Unroll(ast.NodeTransformer):
-    def __init__(self, module_consts, log, where):
+    def __init__(self, module_consts, log, where, records=None):
         self.consts = module_consts
         self.log = log
         self.where = where
+        self.records = records or {}
 
     def visit_For(self, st):  # noqa: N802
         self.generic_visit(st)
-        rows = _const_rows(st.iter, self.consts)
+        rows, fields = _const_rows(st.iter, self.consts, self.records)
         if rows is None or st.orelse:
             return st
         if isinstance(st.target, ast.Name):
@@ -309,17 +567,29 @@ class _Unroll(ast.NodeTransformer):
         else:
             return st
         width = len(rows[0])
-        if (single and width != 1 and False) or (not single and width != len(names)):
+        if not single and width != len(names):
             return st
+        if fields is not None and single:
+            # the loop variable may only be used as row.<field>
+            uses = [n for b in st.body for n in ast.walk(b) if isinstance(n, ast.Name) and n.id == names[0]]
+            attr_uses = [n for b in st.body for n in ast.walk(b) if isinstance(n, ast.Attribute) and
+                         isinstance(n.value, ast.Name) and n.value.id == names[0] and n.attr in fields]
+            if len(uses) != len(attr_uses):
+                return st
         row_names = {y.id for r in rows for y in r if isinstance(y, ast.Name)}
         if row_names:
-            if st.iter is not None and isinstance(st.iter, ast.Name):
+            if st.iter is not None and isinstance(st.iter, (ast.Name, ast.Attribute)):
                 return st   # a module constant must consist of literals only
             if any(isinstance(n, ast.Name) and n.id in row_names and isinstance(n.ctx, (ast.Store, ast.Del))
                    for b in st.body for n in ast.walk(b)):
                 return st
             if any(isinstance(n, (*FUNC, ast.Lambda)) for b in st.body for n in ast.walk(b)):
                 return st   # a closure would capture the loop variable
+        if any(isinstance(n, ast.Continue) for n in ast.walk(st)):
+            body = _continue_to_guard(st.body)
+            if body is None:
+                return st
+            st = ast.copy_location(ast.For(target=st.target, iter=st.iter, body=body, orelse=[], type_comment=None), st)
         for n in ast.walk(st):
             if n is not st and isinstance(n, (ast.Break, ast.Continue)):
                 return st
@@ -328,14 +598,17 @@ class _Unroll(ast.NodeTransformer):
                 return st
         out = []
         for row in rows:
-            if single and width != 1:
-                mapping = {names[0]: ast.Tuple(elts=list(row), ctx=ast.Load())}
-            else:
-                mapping = dict(zip(names, row))
             for b in st.body:
+                if fields is not None and single:
+                    out.append(_FieldSubst(names[0], dict(zip(fields, row))).visit(clone(b)))
+                    continue
+                if single and width != 1:
+                    mapping = {names[0]: ast.Tuple(elts=list(row), ctx=ast.Load())}
+                else:
+                    mapping = dict(zip(names, row))
                 out.append(_Subst(mapping).visit(clone(b)))
         self.log.append(f'unroll {self.where}: loop over {len(rows)} constant rows at line {st.lineno}')
-        return out
+        return _fold_constant_tests(out)
 
 
 class _QuantifierOverConstants(ast.NodeTransformer):
@@ -380,30 +653,117 @@ def unroll_constant_loops(modules: dict, log: list):
     plain statements; it is rewritten to that sequence (the loop has no break / continue / else and does not assign its own
     variables), and getattr / setattr with a literal name become attribute access / assignment."""
     for mname, mod in modules.items():
-        consts = {}
+        consts = _once_bound(mod.tree.body)
+        records = {}
         for st in mod.tree.body:
-            if isinstance(st, ast.Assign) and len(st.targets) == 1 and isinstance(st.targets[0], ast.Name):
-                consts[st.targets[0].id] = st.value
-            elif isinstance(st, ast.AnnAssign) and isinstance(st.target, ast.Name) and st.value is not None:
-                consts[st.target.id] = st.value
-        # names bound more than once at module level are not constants
-        seen = {}
+            if isinstance(st, ast.ClassDef) and any(ast.unparse(b).split('.')[-1] == 'NamedTuple' for b in st.bases):
+                records[st.name] = [x.target.id for x in st.body if isinstance(x, ast.AnnAssign) and isinstance(x.target, ast.Name)]
+        for k, v in consts.items():
+            if isinstance(v, ast.Name) and v.id in records:
+                records[k] = records[v.id]     # `_Row = _LongRowClassName`
+        # attributes that are assigned through an instance / class anywhere in the module are not constants
+        attr_stores = {n.attr for n in ast.walk(mod.tree) if isinstance(n, ast.Attribute) and isinstance(n.ctx, (ast.Store, ast.Del))}
+
+        def handle(node, scope_consts):
+            _QuantifierOverConstants().visit(node)
+            before = len(log)
+            new_body = []
+            for st in node.body:
+                r = _Unroll(scope_consts, log, f'{mname}.{node.name}', records).visit(st)
+                new_body.extend(r if isinstance(r, list) else [r])
+            node.body = new_body
+            if len(log) > before:
+                _LiteralAttr().visit(node)
+
+        def rec(body, scope_consts):
+            for st in body:
+                if isinstance(st, ast.ClassDef):
+                    cc = dict(scope_consts)
+                    for k, v in _once_bound(st.body).items():
+                        if k not in attr_stores and is_private(k):   # public class attributes are API (may be overridden)
+                            for owner in ('self', 'cls', st.name):
+                                cc[f'{owner}.{k}'] = v
+                    rec(st.body, cc)
+                elif isinstance(st, FUNC):
+                    handle(st, scope_consts)
+                    rec(st.body, scope_consts)
+        rec(mod.tree.body, consts)
+        ast.fix_missing_locations(mod.tree)
+
+
+def _once_bound(body) -> dict:
+    """name -> value for the names a module / class body binds exactly once by a plain (annotated) assignment"""
+    consts, seen = {}, {}
+    for st in body:
+        if isinstance(st, ast.Assign) and len(st.targets) == 1 and isinstance(st.targets[0], ast.Name):
+            consts[st.targets[0].id] = st.value
+        elif isinstance(st, ast.AnnAssign) and isinstance(st.target, ast.Name) and st.value is not None:
+            consts[st.target.id] = st.value
+        for t in (st.targets if isinstance(st, ast.Assign) else [st.target] if isinstance(st, (ast.AnnAssign, ast.AugAssign)) else []):
+            if isinstance(t, ast.Name):
+                seen[t.id] = seen.get(t.id, 0) + 1
+    return {k: v for k, v in consts.items() if seen.get(k) == 1}
+
+
+def _side_effect_free(e) -> bool:
+    """attribute chains, constants and and/or/not/comparisons of them (reading them twice gives the same value)"""
+    if isinstance(e, ast.BoolOp):
+        return all(_side_effect_free(v) for v in e.values)
+    if isinstance(e, ast.UnaryOp) and isinstance(e.op, ast.Not):
+        return _side_effect_free(e.operand)
+    if isinstance(e, ast.Compare):
+        return _side_effect_free(e.left) and all(_side_effect_free(c) for c in e.comparators)
+    return _pure(e)
+
+
+def project_records(modules: dict, log: list):
+    """`t = Rec(a, b, c)` with Rec a NamedTuple class of the module, t bound once in the function and used only as `t.<field>`
+    ->  one local per field (`t__f1 = a; t__f2 = b; ...` in argument order), `t.f1` -> `t__f1`.  A record that only groups
+    values inside one function is the same as separate locals."""
+    for mname, mod in modules.items():
+        records = {}
         for st in mod.tree.body:
-            for t in (st.targets if isinstance(st, ast.Assign) else [st.target] if isinstance(st, ast.AnnAssign) else []):
-                if isinstance(t, ast.Name):
-                    seen[t.id] = seen.get(t.id, 0) + 1
-        consts = {k: v for k, v in consts.items() if seen.get(k) == 1}
-        for node in ast.walk(mod.tree):
-            if isinstance(node, FUNC):
-                _QuantifierOverConstants().visit(node)
-                before = len(log)
-                new_body = []
-                for st in node.body:
-                    r = _Unroll(consts, log, f'{mname}.{node.name}').visit(st)
-                    new_body.extend(r if isinstance(r, list) else [r])
-                node.body = new_body
-                if len(log) > before:
-                    _LiteralAttr().visit(node)
+            if isinstance(st, ast.ClassDef) and any(ast.unparse(b).split('.')[-1] == 'NamedTuple' for b in st.bases):
+                records[st.name] = [x.target.id for x in st.body if isinstance(x, ast.AnnAssign) and isinstance(x.target, ast.Name)]
+        if not records:
+            continue
+        for fn in ast.walk(mod.tree):
+            if not isinstance(fn, FUNC):
+                continue
+            for st in [n for n in _walk_no_nested(fn) if isinstance(n, ast.Assign)]:
+                if not (len(st.targets) == 1 and isinstance(st.targets[0], ast.Name) and isinstance(st.value, ast.Call) and
+                        isinstance(st.value.func, ast.Name) and st.value.func.id in records):
+                    continue
+                t, fields, call = st.targets[0].id, records[st.value.func.id], st.value
+                stores = [n for n in ast.walk(fn) if isinstance(n, ast.Name) and n.id == t and not isinstance(n.ctx, ast.Load)]
+                loads = [n for n in ast.walk(fn) if isinstance(n, ast.Name) and n.id == t and isinstance(n.ctx, ast.Load)]
+                proj = [n for n in ast.walk(fn) if isinstance(n, ast.Attribute) and isinstance(n.value, ast.Name) and
+                        n.value.id == t and n.attr in fields and isinstance(n.ctx, ast.Load)]
+                if len(stores) != 1 or len(loads) != len(proj) or any(isinstance(a, ast.Starred) for a in call.args) or \
+                        any(k.arg is None for k in call.keywords) or len(call.args) + len(call.keywords) != len(fields):
+                    continue
+                if any(isinstance(n, (*FUNC, ast.Lambda)) and n is not fn and any(
+                        isinstance(x, ast.Name) and x.id == t for x in ast.walk(n)) for n in ast.walk(fn)):
+                    continue
+                pairs = list(zip(fields, call.args)) + [(k.arg, k.value) for k in call.keywords]
+                if {f for f, _ in pairs} != set(fields):
+                    continue
+                new = [ast.copy_location(ast.Assign(targets=[ast.Name(id=f'{t}__{f}', ctx=ast.Store())], value=v,
+                                                    type_comment=None), st) for f, v in pairs]
+                parent_lists = [getattr(p, fld) for p in ast.walk(fn) for fld in ('body', 'orelse', 'finalbody')
+                                if isinstance(getattr(p, fld, None), list)] + \
+                               [h.body for p in ast.walk(fn) for h in getattr(p, 'handlers', []) or []]
+                for lst in parent_lists:
+                    for i, x in enumerate(lst):
+                        if x is st:
+                            lst[i:i + 1] = new
+                            break
+                for n in proj:
+                    n.__class__ = ast.Name
+                    n.id = f'{t}__{n.attr}'
+                    n._fields = ('id', 'ctx')
+                    del n.value, n.attr
+                log.append(f'record {mname}.{fn.name}: {st.value.func.id} value {t} split into one local per field')
         ast.fix_missing_locations(mod.tree)
 
 
@@ -687,12 +1047,15 @@ def _expand_generator_loop(fn, loop, call, counter_target, start, is_method, cal
     for st in body:
         r = Y().visit(st)
         new.extend(r if isinstance(r, list) else [r])
+    has_return = False
     for st in new:
         for n in ast.walk(st):
             if isinstance(n, ast.Yield):
                 raise _Bail('yield used as an expression')
             if isinstance(n, ast.Return):
-                raise _Bail('return in generator')
+                has_return = True    # a bare `return` ends the generation: control continues after the expanded loop
+    if has_return:
+        new = _eliminate_returns_general(new, lambda value, ret, fallthrough=False: [], f'{fn.name.strip("_")}__exhausted')
     pre = list(prefix)
     if counter_target is not None:
         init = ast.BinOp(left=start, op=ast.Sub(), right=ast.Constant(value=1))
@@ -923,6 +1286,55 @@ def _replace_expr(stmt, old, new):
                         return
 
 
+def _materialise_generator_use(st, is_target, caller_names):
+    """`x = list(G)` / `return list(G)` / `X.extend(G)` / `.. = SEP.join(G)` with G a call of a generator helper  ->  the
+    explicit accumulation loop `acc = []; for v in G: acc.append(v); ...` (same order of effects: list() / extend() / join()
+    exhaust the generator before anything else happens)."""
+    def fresh(stem):
+        k = 0
+        while f'{stem}{k}' in caller_names:
+            k += 1
+        caller_names.add(f'{stem}{k}')
+        return f'{stem}{k}'
+
+    def loop(gcall, acc_expr):
+        v = fresh('_gv')
+        app = ast.Expr(value=ast.Call(func=ast.Attribute(value=acc_expr, attr='append', ctx=ast.Load()),
+                                      args=[ast.Name(id=v, ctx=ast.Load())], keywords=[]))
+        return ast.For(target=ast.Name(id=v, ctx=ast.Store()), iter=gcall, body=[app], orelse=[], type_comment=None)
+
+    if isinstance(st, ast.Expr) and isinstance(st.value, ast.Call) and isinstance(st.value.func, ast.Attribute) and \
+            st.value.func.attr == 'extend' and len(st.value.args) == 1 and not st.value.keywords and \
+            isinstance(st.value.args[0], ast.Call) and is_target(st.value.args[0]) and _pure(st.value.func.value):
+        out = [loop(st.value.args[0], st.value.func.value)]
+    elif isinstance(st, (ast.Assign, ast.Return)) and st.value is not None:
+        v = st.value
+        wrap = None
+        if isinstance(v, ast.Call) and isinstance(v.func, ast.Name) and v.func.id == 'list' and len(v.args) == 1 and \
+                not v.keywords and isinstance(v.args[0], ast.Call) and is_target(v.args[0]):
+            gcall = v.args[0]
+        elif isinstance(v, ast.Call) and isinstance(v.func, ast.Attribute) and v.func.attr == 'join' and len(v.args) == 1 and \
+                isinstance(v.func.value, ast.Constant) and isinstance(v.args[0], ast.Call) and is_target(v.args[0]):
+            gcall = v.args[0]
+            wrap = v.func
+        else:
+            return None
+        acc = fresh('_gacc')
+        init = ast.Assign(targets=[ast.Name(id=acc, ctx=ast.Store())], value=ast.List(elts=[], ctx=ast.Load()), type_comment=None)
+        res = ast.Name(id=acc, ctx=ast.Load())
+        if wrap is not None:
+            res = ast.Call(func=wrap, args=[res], keywords=[])
+        last = clone(st)
+        last.value = res
+        out = [init, loop(gcall, ast.Name(id=acc, ctx=ast.Load())), last]
+    else:
+        return None
+    for o in out:
+        ast.copy_location(o, st)
+        ast.fix_missing_locations(o)
+    return out
+
+
 def _inline_in_body(body, fn, is_target, is_method, caller_names, counter):
     i = 0
     while i < len(body):
@@ -944,6 +1356,11 @@ def _inline_in_body(body, fn, is_target, is_method, caller_names, counter):
                 continue   # the expanded statements are visited next (BODY may contain further calls)
             except _Bail:
                 counter['bailed'] += 1
+        if _is_generator(fn) and not _is_contextmanager(fn):
+            new = _materialise_generator_use(st, is_target, caller_names)
+            if new is not None:
+                body[i:i + 1] = new
+                continue   # the explicit loop is expanded next
         if isinstance(st, ast.For) and _is_generator(fn) and not _is_contextmanager(fn):
             gcall, ctr, start = None, None, None
             it = st.iter
@@ -1005,10 +1422,19 @@ def _single_return_expr(fn):
     body = fn.body
     if body and isinstance(body[0], ast.Expr) and isinstance(body[0].value, ast.Constant) and isinstance(body[0].value.value, str):
         body = body[1:]
-    if len(body) == 1 and isinstance(body[0], ast.Return) and body[0].value is not None:
-        e = body[0].value
-        if not any(isinstance(x, (ast.NamedExpr, ast.Lambda, ast.Yield, ast.YieldFrom, ast.Await)) for x in ast.walk(e)):
-            return e
+    def as_expr(stmts):
+        # `return E`  |  `if c: return A else: return B` (what the if-expression desugaring makes of `return A if c else B`)
+        if len(stmts) == 1 and isinstance(stmts[0], ast.Return) and stmts[0].value is not None:
+            return stmts[0].value
+        if len(stmts) == 1 and isinstance(stmts[0], ast.If) and stmts[0].orelse:
+            a, b = as_expr(stmts[0].body), as_expr(stmts[0].orelse)
+            if a is not None and b is not None:
+                return ast.copy_location(ast.IfExp(test=stmts[0].test, body=a, orelse=b), stmts[0])
+        return None
+    e = as_expr(body)
+    if e is not None and not any(isinstance(x, (ast.NamedExpr, ast.Lambda, ast.Yield, ast.YieldFrom, ast.Await))
+                                 for x in ast.walk(e)):
+        return e
     return None
 
 
